@@ -200,37 +200,126 @@ def needs_quote(cell, d):
     return d in cell or t[:1] == b'"'
 
 
-def render_line(rng, cells, d, qprob):
-    out = []
-    for c in cells:
-        q = needs_quote(c, d) or rng.chance(qprob)
-        out.append(b'"' + esc(c) + b'"' if q else c)
-    line = d.join(out)
-    if not trim(line):            # a blank line would be skipped by the parser: quote one field
-        out[0] = b'"' + esc(cells[0]) + b'"'
-        line = d.join(out)
-    return line
+CANDS = b"\t,:;|"          # the five candidate delimiters of the sniffer
 
 
-def gen_table(rng, tier):
-    """A well-formed rectangular table plus reading parameters."""
+def parse_hook(spec):
+    """The hook language of harness/c09_read.cc (make_filter) and Vita/C09/Proto.lean (makeHook)."""
+    if spec == "0":
+        return []
+    prims = []
+    for p in spec.split("+"):
+        op = "s" if p[0].isdigit() else p[0]
+        body = p if p[0].isdigit() else p[1:]
+        prims.append((op, [int(x) for x in body.split("_")]))
+    return prims
+
+
+def apply_hook(spec, fields):
+    """None = rejected, else the record as the hook leaves it."""
+    r = list(fields)
+    for op, a in parse_hook(spec):
+        if op == "s":
+            if (len(r) + sum(sum(f) for f in r)) % a[0] == a[1]:
+                return None
+        elif op == "w":
+            if sum((i + 1) * (1 + sum(f)) for i, f in enumerate(r)) % a[0] == a[1]:
+                return None
+        elif op == "c":
+            if a[0] < len(r) and (sum(r[a[0]]) + len(r[a[0]])) % a[1] == a[2]:
+                return None
+        elif op == "U":
+            if a[0] < len(r):
+                r[a[0]] = bytes(c - 32 if 0x61 <= c <= 0x7a else c for c in r[a[0]])
+        elif op == "X":
+            if a[0] < len(r) and a[1] < len(r):
+                r[a[0]], r[a[1]] = r[a[1]], r[a[0]]
+    return r
+
+
+def keep(filt, fields):
+    return apply_hook(filt, fields) is not None
+
+
+def gen_hook(rng, ncols, kinds):
+    """A row hook: filters that depend on the content, on the POSITION of the cells, on one cell;
+    transformations of one cell / of the order of two cells of the same kind."""
+    if rng.chance(0.55):
+        return "0"
+    prims = []
+    for _ in range(1 if rng.chance(0.7) else 2):
+        k = rng.below(10)
+        if k < 2:
+            prims.append(("%d_%d" if rng.chance(0.5) else "s%d_%d") % (rng.between(2, 6), rng.below(2)))
+        elif k < 5:
+            prims.append("w%d_%d" % (rng.between(2, 6), rng.below(2)))
+        elif k < 7:
+            prims.append("c%d_%d_%d" % (rng.below(ncols + 1), rng.between(2, 5), rng.below(2)))
+        elif k < 9:
+            prims.append("U%d" % rng.below(ncols + 1))
+        else:
+            pairs = [(i, j) for i in range(ncols) for j in range(ncols) if i != j and kinds[i] == kinds[j]]
+            prims.append("X%d_%d" % rng.choice(pairs) if pairs else "w3_1")
+    return "+".join(prims)
+
+
+LOWER = [b"alpha", b"beta", b"gamma", b"delta", b"setosa", b"versicolor", b"red wine", b"n/a", b"x y z", b"kappa",
+         b"mu", b"omicron-9", b"it's", b"p", b"lorem ipsum"]
+YEARS = [b"2019", b"2020", b"2021", b"1", b"2", b"3.5", b"-4", b"100", b"007", b"1e3"]
+NAMES = [b"length", b"Width", b"HEIGHT", b"x", b"sepal length", b"pH", b"Class", b"mcg", b"A1", b"shell weight"]
+
+
+def plain_num(rng):
+    return ("%.*f" % (rng.below(4), rng.between(-9999, 9999) / 10.0)).encode()
+
+
+def declutter(c):
+    """no candidate delimiter inside the cell (quoted or not): the sniffer counts raw characters"""
+    return bytes(0x5f if ch in CANDS else ch for ch in c)
+
+
+def gen_table(rng, tier, family=None):
+    """A well-formed rectangular table plus reading parameters.
+
+    family: general   any cell text, any of six delimiters (explicit dialect has an oracle)
+            clear     delimiter one of the sniffer's five candidates, no candidate inside a cell, >= 2
+                      columns: the delimiter can be left to the sniffer
+            years     clear + numeric column names over numeric columns (the sniffer votes `no header`)
+            capsrow   clear + header-less text table whose first row is capitalised, the others lower
+                      case (the sniffer votes `header`)
+            unamb     the class of `sniff_agrees`: delimiter and header can both be left to the sniffer"""
     big = tier == "thorough"
+    if family is None:
+        family = "general"
     ncols = rng.between(1, 13) if rng.chance(0.15) else rng.between(2, 13)
+    if family != "general":
+        ncols = max(ncols, 2)
     nrows = rng.between(1, 61) if rng.chance(0.5) else rng.between(1, 13)
     if big and rng.chance(0.05):
         nrows = rng.between(60, 200)
     kinds = [rng.choice("nnt") for _ in range(ncols)]       # n = numeric, t = text
     mode = rng.below(4)
-    if mode == 0:
+    if mode == 0 or family in ("years", "unamb"):
         kinds = ["n"] * ncols
-    elif mode == 1:
+    elif mode == 1 or family == "capsrow":
         kinds = ["t"] * ncols
     has_header = rng.chance(0.5)
+    if family == "years":
+        has_header = True
+    if family == "capsrow":
+        has_header = False
+    if family in ("unamb", "capsrow"):
+        nrows = max(nrows, 2)
     out = None if rng.chance(0.15) else rng.below(ncols)
     if has_header:
         header = []
         for j in range(ncols):
-            h = text_cell(rng) if rng.chance(0.6) else b"col%d" % j
+            if family == "years":
+                h = rng.choice(YEARS)
+            elif family == "unamb":
+                h = rng.choice(NAMES) if rng.chance(0.8) else b"n_%d" % j
+            else:
+                h = text_cell(rng) if rng.chance(0.6) else b"col%d" % j
             header.append(h)
     else:
         header = None
@@ -238,15 +327,18 @@ def gen_table(rng, tier):
     nlabels = rng.between(11, 15) if rng.chance(0.1) else rng.between(2, 6)
     labels = []
     while len(labels) < nlabels:
-        l = text_cell(rng)
+        l = rng.choice(LOWER) + b"%d" % len(labels) if family == "capsrow" else text_cell(rng)
         if trim(l) not in [trim(x) for x in labels]:
             labels.append(l)
-    loose = rng.chance(0.25)        # text input cells of later rows may be blank / numeric looking
+    loose = rng.chance(0.25) and family in ("general", "clear")   # later text cells may be blank / numeric looking
     for i in range(nrows):
         r = []
         for j in range(ncols):
             if kinds[j] == "n":
-                r.append(rnd_num(rng))
+                r.append(plain_num(rng) if family == "unamb" else rnd_num(rng))
+            elif family == "capsrow":
+                w = rng.choice(labels) if j == out else rng.choice(LOWER)
+                r.append(w.capitalize() if i == 0 else w)
             elif j == out:
                 r.append(rng.choice(labels))
             elif loose and i > 0:
@@ -255,32 +347,56 @@ def gen_table(rng, tier):
                 r.append(text_cell(rng))
         rows.append(r)
     d = rng.choice(DELIMS)
+    qprob = rng.choice([0.0, 0.0, 0.2, 1.0])
+    if family != "general":
+        d = rng.choice(DELIMS[:5])
+        rows = [[declutter(c) for c in r] for r in rows]
+        if header is not None:
+            header = [declutter(c) for c in header]
+    if family == "unamb":
+        qprob = 0.0
+    hook = gen_hook(rng, ncols, kinds)
     return {"ncols": ncols, "kinds": kinds, "header": header, "rows": rows, "out": out, "delim": d,
-            "trim": rng.chance(0.3), "qprob": rng.choice([0.0, 0.0, 0.2, 1.0]),
+            "trim": rng.chance(0.3), "keep": rng.chance(0.2), "qprob": qprob,
             "eol": rng.choice([b"\n", b"\n", b"\r\n"]), "final_eol": rng.chance(0.8),
-            "filter": "0" if rng.chance(0.75) else "%d_%d" % (rng.between(2, 6), rng.below(2)),
-            "loose": loose}
+            "filter": hook, "loose": loose, "family": family}
+
+
+def render_line(rng, cells, d, qprob, noquote=()):
+    """-> (line, mask of the quoted cells); cells whose index is in `noquote` are quoted only if needed"""
+    out, mask = [], []
+    for j, c in enumerate(cells):
+        q = needs_quote(c, d) or (j not in noquote and rng.chance(qprob))
+        mask.append(q)
+        out.append(b'"' + esc(c) + b'"' if q else c)
+    line = d.join(out)
+    if not trim(line):            # a blank line would be skipped by the parser: quote one field
+        out[0] = b'"' + esc(cells[0]) + b'"'
+        mask[0] = True
+        line = d.join(out)
+    return line, mask
 
 
 def render_csv(rng, T):
-    lines = []
+    """The file; the decisions to quote are left in T["qmask"] (one mask per line, header first).
+    With KEEP_QUOTES a quoted number is a text: numeric cells are quoted only when they have to be."""
+    noq = [j for j, k in enumerate(T["kinds"]) if k == "n"] if T.get("keep") else ()
+    lines, masks = [], []
     if T["header"] is not None:
-        lines.append(render_line(rng, T["header"], T["delim"], T["qprob"]))
+        l, m = render_line(rng, T["header"], T["delim"], T["qprob"])
+        lines.append(l)
+        masks.append(m)
     for r in T["rows"]:
-        lines.append(render_line(rng, r, T["delim"], T["qprob"]))
+        l, m = render_line(rng, r, T["delim"], T["qprob"], noq)
+        lines.append(l)
+        masks.append(m)
         if rng.chance(0.03):
             lines.append(rng.choice([b"", b"  ", b"\t"]))          # blank lines are skipped
+    T["qmask"] = masks
     data = T["eol"].join(lines)
     if T["final_eol"]:
         data += T["eol"]
     return data
-
-
-def keep(filt, fields):
-    if filt == "0":
-        return True
-    m, k = [int(x) for x in filt.split("_")]
-    return (len(fields) + sum(sum(f) for f in fields)) % m != k
 
 
 def rotate(r, k):
@@ -291,29 +407,56 @@ def stod_bits(b):
     return dbits(float(trim(b).decode("latin1")))
 
 
-def expected_csv(T):
-    """What the table says the import must produce (None = outside the oracle's class)."""
-    fields = lambda r: [trim(c) for c in r] if T["trim"] else r
-    recs = []
-    if T["header"] is not None:
-        recs.append(T["header"])
-    recs += T["rows"]
-    recs = [r for r in recs if keep(T["filter"], fields(r))]
-    if T["header"] is not None:
-        if not recs:
+def seen_fields(T):
+    """The records as the parser has to deliver them, header first: a cell written between quotes
+    keeps them under KEEP_QUOTES; trim_ws trims."""
+    recs = ([T["header"]] if T["header"] is not None else []) + T["rows"]
+    out = []
+    for r, m in zip(recs, T["qmask"]):
+        f = [b'"' + c + b'"' if (q and T.get("keep")) else c for c, q in zip(r, m)]
+        out.append([trim(c) for c in f] if T["trim"] else f)
+    return out
+
+
+def expected_csv(T, alt=False):
+    """What the table says the import must produce (None = outside the oracle's class).
+    Call after render_csv (the quoting decisions matter under KEEP_QUOTES).
+    alt: the other reading of the first line (a header line read as data / the first data row read
+    as header) - what must come out when the header is left to the sniffer and it votes the other way."""
+    recs = seen_fields(T)
+    if T.get("keep") and any(q and T["kinds"][j] == "n" for m in T["qmask"][(T["header"] is not None):]
+                             for j, q in enumerate(m)):
+        return None                              # a number kept between quotes is a text
+    hooked = [apply_hook(T["filter"], r) for r in recs]       # the hook sees the record as parsed
+    as_header = (T["header"] is not None) != alt
+    tkinds = T["kinds"]
+    if alt:
+        if T.get("keep") or any(h is None for h in hooked[:2]):
+            return None
+        if T["header"] is not None:              # the header line is the first example: it types the columns
+            tkinds = ["n" if (kd == "n" and is_numeric_text(c)) else "t" for kd, c in zip(tkinds, hooked[0])]
+            if T["out"] is not None and T["kinds"][T["out"]] == "n" and tkinds[T["out"]] == "t":
+                return None                      # labels and numbers in the output column
+    T = dict(T, kinds=tkinds)
+    if as_header:
+        if all(h is None for h in hooked):
             return "exc"
-        header, data = recs[0], recs[1:]
-        if header is not T["header"]:
-            return None                          # the filter ate the header: a data row takes its place
+        if hooked[0] is None:
+            return None                          # the hook ate the header: a data row takes its place
+        header, data = hooked[0], [h for h in hooked[1:] if h is not None]
     else:
-        header, data = None, recs
+        header, data = None, [h for h in hooked if h is not None]
     if not data:
         return "exc"
     if any(not trim(c) for c in data[0]):
         return None
     if any(T["kinds"][j] == "t" and is_numeric_text(c) for j, c in enumerate(data[0])):
-        return None       # (the filter removed the first row) a text column would be taken for numbers
+        return None       # (the hook removed the first row) a text column would be taken for numbers
+    if alt and any(T["kinds"][j] == "n" and not is_numeric_text(c) for r in data for j, c in enumerate(r)):
+        return None
     k = T["out"]
+    if k is not None and T["kinds"][k] == "t" and any(is_numeric_text(r[k]) for r in data):
+        return None       # (the hook moved cells) a numeric looking label is read as a number
     kinds = rotate(T["kinds"], k)
     names = [hx(trim(h)) for h in rotate(header, k)] if header is not None else ["-"] * T["ncols"]
     if k is None:
@@ -359,12 +502,17 @@ def xml_attr(b):
     return xml_esc(b).replace(b'"', b"&quot;")
 
 
+EXTS = [b".csv", b".CSV", b".txt", b".dat", b"", b".xrff", b".XRFF", b".Xrff", b".xml", b".XML", b".xMl", b".xmlx",
+        b".xrf", b".tsv", b".xrff2"]
+VOID_TYPES = [b"date", b"relational", b"", None, b"Numeric", b"STRING", b"int", b"nominal "]
+
+
 def render_xrff(rng, T):
-    """The same logical table as XRFF text; returns (bytes, expected)."""
+    """The same logical table as XRFF text; returns (bytes, expected).  T["xinfo"] describes the
+    header that was written (class attribute position, declared types)."""
     k = T["out"]
     nc = T["ncols"]
     types = []
-    ints = []
     for j in range(nc):
         if T["kinds"][j] == "n":
             allint = all(trim(r[j]).lstrip(b"+-").isdigit() and len(trim(r[j])) < 9 for r in T["rows"])
@@ -374,18 +522,29 @@ def render_xrff(rng, T):
                 types.append(rng.choice([b"numeric", b"real"]))
         else:
             types.append(rng.choice([b"string", b"nominal"]))
+    void = set()
+    if rng.chance(0.15):            # a type read_xrff does not handle: the column has no domain
+        jv = rng.below(nc)
+        types[jv] = rng.choice(VOID_TYPES)
+        void.add(jv)
     names = [trim(h) for h in T["header"]] if T["header"] is not None else [b"a%d" % j for j in range(nc)]
     explicit = k is not None and (k != nc - 1 or rng.chance(0.5))
     kk = nc - 1 if k is None else k
+    T["xinfo"] = {"class": ("default" if not explicit else "first" if kk == 0 else "last" if kk == nc - 1
+                            else "middle") + ("/1col" if nc == 1 else ""),
+                  "types": [("missing" if t is None else t.decode() or "empty") for t in types],
+                  "class_type": "missing" if types[kk] is None else types[kk].decode() or "empty"}
     o = [b"<?xml version=\"1.0\"?>\n<dataset name=\"t\">\n<header>\n<attributes>\n"]
     labelsets = []
     for j in range(nc):
         a = b"<attribute "
         if explicit and j == kk:
             a += b'class="yes" '
-        a += b'name="' + xml_attr(names[j]) + b'" type="' + types[j] + b'"'
+        a += b'name="' + xml_attr(names[j]) + b'"'
+        if types[j] is not None:
+            a += b' type="' + types[j] + b'"'
         ls = []
-        if types[j] == b"nominal" and rng.chance(0.7):
+        if types[j] is not None and types[j].startswith(b"nominal") and rng.chance(0.7):
             ls = sorted({trim(r[j]) for r in T["rows"]})
             a += b">" + b"".join(b"<label>" + xml_esc(l) + b"</label>" for l in ls) + b"</attribute>\n"
         else:
@@ -397,10 +556,17 @@ def render_xrff(rng, T):
         o.append(b"<instance>" + b"".join(b"<value>" + xml_esc(c) + b"</value>" for c in r) + b"</instance>\n")
     o.append(b"</instances>\n</body>\n</dataset>\n")
     data = b"".join(o)
+    if any(T["kinds"][j] == "n" and not trim(r[j]) for r in T["rows"] for j in range(nc)):
+        return data, None          # a numeric column with an empty value: std::stod throws
     # expected
-    # a <value> holding only white space has no text node: GetText() is null, the field is ""
-    rows = [r for r in T["rows"] if keep(T["filter"], [c if trim(c) else b"" for c in r])]
-    kinds = rotate(T["kinds"], kk)
+    for op, a in parse_hook(T["filter"]):
+        if op == "X" and a[0] < nc and a[1] < nc and types[a[0]] != types[a[1]]:
+            return data, None      # cells moved to a column declared with another type
+    # a <value> holding only white space has no text node: GetText() is null, the field is "".
+    # The hook is handed the values in the order of the <value> elements.
+    rows = [apply_hook(T["filter"], [c if trim(c) else b"" for c in r]) for r in T["rows"]]
+    rows = [r for r in rows if r is not None]
+    kinds = rotate(["v" if j in void else kd for j, kd in enumerate(T["kinds"])], kk)
     tys = rotate(types, kk)
     lbs = rotate(labelsets, kk)
     nm = rotate(names, kk)
@@ -409,6 +575,10 @@ def render_xrff(rng, T):
         r = rotate(r, kk)
         vals = []
         for j, c in enumerate(r):
+            if kinds[j] == "v":
+                if j == 0:
+                    vals.append("v")
+                continue            # a column without a domain is not stored in the example
             if kinds[j] == "n":
                 vals.append("i%d" % int(trim(c)) if tys[j] == b"integer" else stod_bits(c))
             elif j == 0:
@@ -421,6 +591,9 @@ def render_xrff(rng, T):
         ex.append((vals[0], tuple(vals[1:])))
     cols = []
     for j in range(nc):
+        if kinds[j] == "v":
+            cols.append((hx(nm[j]), 0, ()))
+            continue
         if kinds[j] == "n":
             dom = 1 if tys[j] == b"integer" else 2
         else:
@@ -431,7 +604,7 @@ def render_xrff(rng, T):
             dom = 3
             st = tuple(sorted("s" + hx(l) for l in lbs[j])) if tys[j] == b"nominal" else ()
         cols.append((hx(nm[j]), dom, st))
-    if T["kinds"][kk] == "t" and any(is_numeric_text(r[kk]) for r in rows):
+    if kinds[0] == "t" and any(is_numeric_text(r[kk]) for r in rows):
         return data, None          # a numeric looking label is read as a number: outside the oracle's class
     if len(classes) == 1 and ex:
         return data, "exc"
@@ -441,12 +614,46 @@ def render_xrff(rng, T):
 
 
 def csv_line(T, data, op="csv", sniff=False):
-    d = 0 if sniff else T["delim"][0]
-    h = -1 if sniff else (1 if T["header"] is not None else 0)
+    """csv2 request: the delimiter and the header flag are given (T["dmode"] / T["hmode"] = `explicit`,
+    the default) or left to the sniffer"""
+    dmode, hmode = T.get("dmode", "explicit"), T.get("hmode", "explicit")
+    if sniff:
+        dmode = hmode = "sniffed"
+    d = T["delim"][0] if dmode == "explicit" else 0
+    h = (1 if T["header"] is not None else 0) if hmode == "explicit" else -1
     o = -1 if T["out"] is None else T["out"]
     if op == "var":
-        return "var %d %d %d %d %d %s" % (d, h, int(T["trim"]), o, T.get("typing", 0), hx(data))
-    return "csv %d %d %d %d %s %s" % (d, h, int(T["trim"]), o, T["filter"], hx(data))
+        return "var %d %d %d %d %d %s" % (T["delim"][0], 1 if T["header"] is not None else 0, int(T["trim"]), o,
+                                         T.get("typing", 0), hx(data))
+    return "csv2 %d %d %d %d %d %s %s" % (d, h, int(T["trim"]), int(bool(T.get("keep"))), o, T["filter"], hx(data))
+
+
+def xrff_line(rng, T, xml):
+    """xrff2 request: dialect and output_index are set as well - read_xrff must not look at them"""
+    return "xrff2 %d %d %d %d %d %s %s" % (rng.choice([0, 44, 59, 9]), rng.between(-1, 1), rng.below(2), rng.below(2),
+                                          rng.between(-1, T["ncols"] + 1), T["filter"], hx(xml))
+
+
+def oracle_applies(T):
+    """explicit dialect: always; delimiter left to the sniffer: the delimiter-clear families; header
+    left to the sniffer: the class of `sniff_agrees`"""
+    dmode, hmode = T.get("dmode", "explicit"), T.get("hmode", "explicit")
+    if hmode != "explicit":
+        return T["family"] == "unamb"
+    return dmode == "explicit" or T["family"] != "general"
+
+
+def expected_for(T):
+    """The table oracle for a csv2 request: one expectation, or - header left to the sniffer on a table
+    outside the class of `sniff_agrees`, delimiter explicit or recognisable - the two readings of the
+    first line, one of which must come out (`either`)."""
+    if oracle_applies(T):
+        return expected_csv(T)
+    if T.get("hmode", "explicit") != "explicit" and (T.get("dmode", "explicit") == "explicit" or T["family"] != "general"):
+        a, b = expected_csv(T), expected_csv(T, alt=True)
+        if a is not None and b is not None:
+            return {"either": [a, b]}
+    return None
 
 
 def parse_vars(s, width):
@@ -462,6 +669,101 @@ def parse_vars(s, width):
         p += width * k
         out.append((name, cat, rows))
     return out
+
+
+def parse_syms(s, width):
+    """`ok S n {v name cat rows {width tokens} | k name cat value | f name cat} P cats vars classes C n {name dom ns}`
+    -> (groups, P, cols); a group = (name, cat, rows, sorted constants (name, cat, value)) per variable"""
+    t = s.split()
+    n = int(t[2])
+    p = 3
+    groups, loose = [], []
+    for _ in range(n):
+        k = t[p]
+        if k == "v":
+            name, cat, nr = t[p + 1], t[p + 2], int(t[p + 3])
+            p += 4
+            rows = [tuple(t[p + width * r:p + width * (r + 1)]) for r in range(nr)]
+            p += width * nr
+            groups.append([name, cat, rows, []])
+        elif k == "k":
+            c = (t[p + 1], t[p + 2], t[p + 3])
+            p += 4
+            (groups[-1][3] if groups else loose).append(c)
+        else:
+            loose.append((t[p + 1], t[p + 2], "function"))
+            p += 3
+    assert t[p] == "P"
+    P = tuple(t[p + 1:p + 4])
+    assert t[p + 4] == "C"
+    nc = int(t[p + 5])
+    p += 6
+    cols = [(t[p + 3 * j], int(t[p + 3 * j + 1]), int(t[p + 3 * j + 2])) for j in range(nc)]
+    assert p + 3 * nc == len(t)
+    return [(g[0], g[1], g[2], sorted(g[3])) for g in groups], loose, P, cols
+
+
+def check_symbols(a, strong):
+    """The property's own statement about setup_terminals, read off vita's answer alone: one variable
+    per input column that has a domain, in column order, named after it, the j-th one asking for input j
+    (and a real interpreter returning that cell); the constants of a column's states right after its
+    variable, in its category; categories: undefined for no column with a variable, one per column under
+    strong typing, shared exactly by the non-string columns of equal domain under weak typing."""
+    groups, loose, P, cols = parse_syms(a, 3)
+    if loose:
+        return "setup_terminals inserted %r outside a column's group" % (loose[:2],)
+    want = [(i, c) for i, c in enumerate(cols) if i >= 1 and c[1] != 0]
+    if len(groups) != len(want):
+        return "%d variables for %d input columns with a domain" % (len(groups), len(want))
+    for j, ((name, cat, rows, ks), (i, (cname, dom, ns))) in enumerate(zip(groups, want)):
+        exp_name = cname if cname != "-" else hx(b"X%d" % i)
+        if name != exp_name:
+            return "variable %d is named %s, its column (%d) %s" % (j, name, i, exp_name)
+        if cat == "u" or int(cat) > 10 ** 6:
+            return "variable %d has no category" % j
+        for asked, direct, interp in rows:
+            if int(asked) != j:
+                return "variable %d reads input %s" % (j, asked)
+            if direct == "s" + hx(b"<out-of-range>"):
+                return "variable %d reads input %s, the example has fewer inputs" % (j, asked)
+            if interp != "-" and interp != direct:
+                return "variable %d: interpreter returns %s, the example holds %s" % (j, interp, direct)
+            if direct[0] != {1: "i", 2: "d", 3: "s"}[dom]:
+                return "variable %d of a column with domain %d evaluates to %s" % (j, dom, direct)
+        if len(ks) != ns:
+            return "column %d has %d states, %d constants follow its variable" % (i, ns, len(ks))
+        for kn, kc, kv in ks:
+            if kc != cat:
+                return "a state constant of column %d is in category %s, the variable in %s" % (i, kc, cat)
+            if kv[0] != "s" or unhx(kn) != b'"' + unhx(kv[1:]) + b'"':
+                return "state constant %s evaluates to %s" % (kn, kv)
+    cats = [(int(g[1]), c[1]) for g, (_, c) in zip(groups, want)]
+    for x, (cx, dx) in enumerate(cats):
+        for cy, dy in cats[x + 1:]:
+            if cx == cy and dx != dy:
+                return "category %d holds columns of domains %d and %d" % (cx, dx, dy)
+            if cx == cy and (strong or dx == 3):
+                return "two %s columns share category %d" % ("strongly typed" if strong else "string", cx)
+            if cx != cy and not strong and dx == dy and dx != 3:
+                return "weak typing: two columns of domain %d in categories %d and %d" % (dx, cx, cy)
+    if groups and groups[0][2] and int(P[1]) != len(groups):      # (an empty dataframe has no inputs)
+        return "%s inputs per example, %d variables" % (P[1], len(groups))
+    return None
+
+
+def oracle_diff(exp, a):
+    """None when vita's answer `a` is what the table oracle expects (`exp`: a dump, "exc", or
+    {"either": [...]}), else a description of the first difference"""
+    if isinstance(exp, dict) and "either" in exp:
+        ds = [oracle_diff(e, a) for e in exp["either"]]
+        return None if None in ds else "neither reading of the first line: as declared: %s; the other way: %s" % tuple(ds)
+    if exp == "exc":
+        return None if a.startswith("exc") else "expected an exception (no data rows / a single class), got: " + a[:200]
+    got = parse_dump(a)
+    if got is None:
+        return "well-formed table rejected: %s (expected %d examples)" % (a[:200], len(exp["examples"]))
+    d = first_diff(exp, got)
+    return None if d is None else "import differs from the table (table vs vita): " + d
 
 
 def first_diff(a, b):
@@ -508,25 +810,32 @@ def gen_parse_line(rng):
     return b"".join(rng.choice(alphabet) for _ in range(n))
 
 
-def shrink_table(S, T, budget=70):
+def shrink_table(S, T, kind="csv", budget=70):
     """Greedy reduction of a table on which vita and the table oracle disagree: drop rows, then
-    columns, then shorten cells, as long as the disagreement stays.  Returns (T, line, answer)."""
+    columns, as long as the disagreement stays.  Returns (T, line, answer, expected)."""
+    sniffing = kind == "csv" and (T.get("dmode", "explicit") != "explicit" or T.get("hmode", "explicit") != "explicit")
+    min_cols = 2 if sniffing else 1
+    min_rows = 2 if T.get("hmode", "explicit") != "explicit" else 1
+
     def attempt(T2):
-        data = render_csv(C.SplitMix(4242), T2)
-        exp = expected_csv(T2)
-        ln = csv_line(T2, data)
+        if kind == "xrff":
+            data, exp = render_xrff(C.SplitMix(4242), T2)
+            ln = xrff_line(C.SplitMix(4243), T2, data)
+        else:
+            data = render_csv(C.SplitMix(4242), T2)
+            exp = expected_for(T2)
+            ln = csv_line(T2, data)
         ans, deaths = S.cpp([ln])
         a = ans[0] if ans else "died"
         if isinstance(exp, dict):
-            got = parse_dump(a)
-            bad = got is None or first_diff(exp, got) is not None
+            bad = oracle_diff(exp, a) is not None
         elif exp == "exc":
             bad = not a.startswith("exc")
         else:
             bad = False
-        return bad, ln, a
+        return bad, ln, a, exp
     best = dict(T)
-    bad, ln, a = attempt(best)
+    bad, ln, a, ex = attempt(best)
     if not bad:
         return None
     used = 1
@@ -536,19 +845,19 @@ def shrink_table(S, T, budget=70):
         n = len(best["rows"])
         for chunk in (n // 2, n // 4, 1):
             i = 0
-            while chunk >= 1 and i < len(best["rows"]) and len(best["rows"]) > 1 and used < budget:
+            while chunk >= 1 and i < len(best["rows"]) and len(best["rows"]) > min_rows and used < budget:
                 cand = dict(best)
                 cand["rows"] = best["rows"][:i] + best["rows"][i + chunk:]
-                if not cand["rows"]:
+                if len(cand["rows"]) < min_rows:
                     break
-                ok2, l2, a2 = attempt(cand)
+                ok2, l2, a2, e2 = attempt(cand)
                 used += 1
                 if ok2:
-                    best, ln, a, changed = cand, l2, a2, True
+                    best, ln, a, ex, changed = cand, l2, a2, e2, True
                 else:
                     i += chunk
         j = 0
-        while j < best["ncols"] and best["ncols"] > 1 and used < budget:
+        while j < best["ncols"] and best["ncols"] > min_cols and used < budget:
             if j == best["out"]:
                 j += 1
                 continue
@@ -559,24 +868,69 @@ def shrink_table(S, T, budget=70):
             cand["header"] = None if best["header"] is None else best["header"][:j] + best["header"][j + 1:]
             if best["out"] is not None and best["out"] > j:
                 cand["out"] = best["out"] - 1
-            ok2, l2, a2 = attempt(cand)
+            ok2, l2, a2, e2 = attempt(cand)
             used += 1
             if ok2:
-                best, ln, a, changed = cand, l2, a2, True
+                best, ln, a, ex, changed = cand, l2, a2, e2, True
             else:
                 j += 1
-    return best, ln, a
+    return best, ln, a, ex
+
+
+def hook_ops(spec):
+    return "none" if spec == "0" else "+".join(sorted({op for op, _ in parse_hook(spec)}))
+
+
+def position(k, n):
+    return "none" if k is None else "only" if n == 1 else "first" if k == 0 else "last" if k == n - 1 else "middle"
+
+
+def count_params(chk, kind, T, exp, sniffed):
+    """the distribution of the reading parameters (evidence): one count per request"""
+    f = kind + ":"
+    chk.count(f + "family=" + T["family"])
+    chk.count(f + "hook=" + hook_ops(T["filter"]))
+    chk.count(f + "oracle=" + ("either-reading" if isinstance(exp, dict) and "either" in exp else
+                               "table" if isinstance(exp, dict) else "exception" if exp == "exc" else "model-only"))
+    if kind == "xrff":
+        x = T["xinfo"]
+        chk.count(f + "class_attribute=" + x["class"])
+        chk.count(f + "class_type=" + x["class_type"])
+        for t in x["types"]:
+            chk.count(f + "attribute_type=" + t)
+        if hook_ops(T["filter"]) != "none":
+            chk.count(f + "hook_x_class_attribute=" + x["class"])
+        return
+    dm = T.get("dmode", "explicit")
+    hm = ("explicit-yes" if T["header"] is not None else "explicit-no") if T.get("hmode", "explicit") == "explicit" \
+        else "guessed"
+    chk.count(f + "delimiter=%s,header=%s" % (dm, hm))
+    chk.count(f + "delimiter_char=%d" % T["delim"][0])
+    chk.count(f + "trim_ws=%d" % T["trim"])
+    chk.count(f + "quoting=" + ("keep" if T.get("keep") else "remove"))
+    chk.count(f + "output_index=" + position(T["out"], T["ncols"]))
+    if hook_ops(T["filter"]) != "none":
+        chk.count(f + "hook_x_output_index=" + position(T["out"], T["ncols"]))
+    if sniffed is not None:         # the sniffer's opinion about this file against the truth
+        t = sniffed.split()
+        if len(t) == 3 and t[0] == "ok":
+            truth_h = 1 if T["header"] is not None else 0
+            vote = "right" if int(t[2]) == truth_h else "wrong"
+            chk.count(f + "sniffer_header_vote=%s|header=%s" % (vote, hm))
+            chk.count(f + "sniffer_delimiter=%s|delimiter=%s" % ("right" if int(t[1]) == T["delim"][0] else "wrong", dm))
+            if vote == "wrong" and hm != "guessed" and isinstance(exp, dict):
+                chk.count(f + "explicit_header_against_sniffer_vote_with_oracle|delimiter=" + dm)
 
 
 def nontrivial(kind, ln, answer):
     """csv / xrff / var: the import succeeded with at least one example and two columns;
     parse: the text has a quote; sniff: the file has at least two lines."""
     t = ln.split()
-    if kind in ("csv", "xrff"):
+    if kind in ("csv", "xrff", "file"):
         d = parse_dump(answer) if answer.startswith("ok") else None
         return d is not None and len(d["examples"]) >= 1 and len(d["cols"]) >= 2
     if kind == "var":
-        return answer.startswith("ok V") and answer.split()[2] != "0"
+        return answer.startswith(("ok V", "ok S")) and answer.split()[2] != "0"
     if kind == "parse":
         return "22" in [t[4][i:i + 2] for i in range(0, len(t[4]), 2)] if t[4] != "-" else False
     if kind == "sniff":
@@ -601,12 +955,18 @@ def run(chk, replay=None):
     cases = []      # (kind, request line for C++, request line for the model or None, expected, info)
     rp = json.load(open(replay)).get("replay", {}) if replay else {}
     if "line" in rp:          # a concrete failing input: run exactly this request again
-        k = rp.get("kind", rp["line"].split()[0])
+        k = rp.get("kind", rp["line"].split()[0].rstrip("2"))
         exp = rp.get("expected")
-        if isinstance(exp, dict):       # the table oracle's expectation travels with the replay
-            exp = dict(exp, cols=[(c[0], c[1], tuple(c[2])) for c in exp["cols"]],
-                       examples=[(e[0], tuple(e[1])) for e in exp["examples"]])
-        cases.append((k, rp["line"], None if k == "xrff" else rp["line"], exp, {"replay": True}))
+        def thaw(e):                    # the table oracle's expectation travels with the replay
+            if isinstance(e, dict) and "either" in e:
+                return {"either": [thaw(x) for x in e["either"]]}
+            if isinstance(e, dict):
+                return dict(e, cols=[(c[0], c[1], tuple(c[2])) for c in e["cols"]],
+                            examples=[(x[0], tuple(x[1])) for x in e["examples"]])
+            return e
+        exp = thaw(exp)
+        cases.append((k, rp["line"], None if k in ("xrff", "file") or rp["line"].startswith("var2 xrff")
+                      else rp["line"], exp, {"replay": True}))
     else:
         cdir = os.path.join(C.ROOT, "corpus", "C09")
         if os.path.isdir(cdir):
@@ -616,46 +976,78 @@ def run(chk, replay=None):
                     if ln and not ln.startswith("#"):
                         cases.append((ln.split()[0], ln, ln, None, {"corpus": f}))
         ncsv = 1800 if quick else 14000
+        fams = ["general"] * 10 + ["clear"] * 3 + ["years"] * 2 + ["capsrow"] * 2 + ["unamb"] * 3
         for i in range(ncsv):
-            T = gen_table(rng, chk.tier)
+            T = gen_table(rng, chk.tier, rng.choice(fams))
+            # {explicit, sniffed} delimiter x {explicit header / no-header, guessed}
+            if T["family"] == "general":
+                m = rng.below(20)
+                T["dmode"] = "sniffed" if m in (0, 1) else "explicit"
+                T["hmode"] = "sniffed" if m in (1, 2) else "explicit"
+            else:
+                T["dmode"] = rng.choice(["explicit", "sniffed", "sniffed"])
+                T["hmode"] = rng.choice(["explicit", "explicit", "sniffed"])
+            if T["hmode"] == "sniffed":
+                # the number of lines the sniffer inspects (20) is a parameter of the model that no
+                # theorem depends on; on inputs that fit in the window the tie does not depend on it either
+                T["rows"] = T["rows"][:17]
             data = render_csv(rng, T)
-            exp = expected_csv(T)
+            exp = expected_for(T)
             ln = csv_line(T, data)
-            cases.append(("csv", ln, ln, exp, {"T": T}))
+            info = {"T": T}
+            if T["dmode"] != "explicit" or T["hmode"] != "explicit" or T["family"] != "general":
+                info["sniff_at"] = len(cases) + 1       # what does the sniffer say about this file?
+                cases.append(("csv", ln, ln, exp, info))
+                sl = "sniff " + hx(data)
+                cases.append(("sniff", sl, sl, None, {"aux": True}))
+            else:
+                cases.append(("csv", ln, ln, exp, info))
             if i % 4 == 0 and T["ncols"] >= 2:
+                # read + setup_terminals: variables, state constants, categories
                 T2 = dict(T)
                 T2["typing"] = rng.below(2)
-                T2["filter"] = "0"
-                if T2["header"] is not None:      # distinct, non-empty names (decode() works by name)
-                    T2["header"] = [b"n%d_" % j + trim(h)[:6].replace(b'"', b"q") for j, h in enumerate(T2["header"])]
+                T2["dmode"], T2["hmode"] = "explicit", "explicit"
+                via = "data"
                 if rng.chance(0.3) and T2["ncols"] >= 3:   # a column without any value has no domain
                     jb = rng.below(T2["ncols"])
                     if jb != T2["out"]:
                         T2["rows"] = [r[:jb] + [rng.choice([b"", b" "])] + r[jb + 1:] for r in T2["rows"]]
-                        info_blank = True
-                d2 = render_csv(rng, T2)
-                ln = csv_line(T2, d2, op="var")
-                cases.append(("var", ln, ln, None, {"T": T2}))
+                if rng.chance(0.12):      # src_problem(std::istream &, typing): default parameters
+                    via = "ctor"
+                    T2.update(dmode="sniffed", hmode="sniffed", out=0, filter="0", trim=False, keep=False,
+                              rows=T2["rows"][:17])
+                if i % 8 == 0:
+                    xd, _ = render_xrff(rng, T2)
+                    ln = "var2 xrff %s %d data %s" % (xrff_line(rng, T2, xd).split(" ", 1)[1].rsplit(" ", 1)[0],
+                                                      T2["typing"], hx(xd))
+                    cases.append(("var", ln, None, None, {"T": T2, "fmt": "xrff", "via": "data"}))
+                else:
+                    d2 = render_csv(rng, T2)
+                    ln = "var2 csv %s %d %s %s" % (csv_line(T2, d2).split(" ", 1)[1].rsplit(" ", 1)[0], T2["typing"],
+                                                   via, hx(d2))
+                    cases.append(("var", ln, ln, None, {"T": T2, "fmt": "csv", "via": via}))
             if i % 3 == 0:
                 xd, xexp = render_xrff(rng, T)
-                cases.append(("xrff", "xrff %s %s" % (T["filter"], hx(xd)), None, xexp, {"T": T, "xml": xd}))
+                cases.append(("xrff", xrff_line(rng, T, xd), None, xexp, {"T": T, "xml": xd}))
+                if i % 6 == 0:
+                    # dataframe::read(path, params): the extension of the file name chooses the format
+                    ext = rng.choice(EXTS)
+                    as_x = rng.chance(0.5)
+                    isx = ext.lower() in (b".xrff", b".xml")
+                    content = xd if as_x else data
+                    fexp = (xexp if as_x else exp) if isx == as_x else None
+                    ln = "file %s %s %s" % (hx(ext), csv_line(T, data).split(" ", 1)[1].rsplit(" ", 1)[0], hx(content))
+                    cases.append(("file", ln, None, fexp, {"T": T, "ext": ext, "content": "xrff" if as_x else "csv"}))
         for _ in range(1000 if quick else 12000):
             data, d, h = gen_unambiguous(rng)
             ln = "sniff " + hx(data)
             cases.append(("sniff", ln, ln, "ok %d %d" % (d, h), {}))
-        # sniffing general tables: model vs code only.  At most 17 data rows: the number of lines the
-        # sniffer inspects (20) is a parameter of the model that no theorem depends on; on inputs that
-        # fit in the window the tie does not depend on it either.
+        # sniffing general tables: model vs code only (at most 17 data rows, see above)
         for _ in range(500 if quick else 6000):
             T = gen_table(rng, chk.tier)
             T["rows"] = T["rows"][:17]
             ln = "sniff " + hx(render_csv(rng, T))
             cases.append(("sniff", ln, ln, None, {}))
-            if rng.chance(0.5):
-                T = gen_table(rng, chk.tier)
-                T["rows"] = T["rows"][:17]
-                ln = csv_line(T, render_csv(rng, T), sniff=True)
-                cases.append(("csv", ln, ln, None, {"sniffed": True}))
         for _ in range(10000 if quick else 100000):
             text = b"\n".join(gen_parse_line(rng) for _ in range(rng.between(1, 4)))
             ln = "parse %d %d %d %s" % (rng.choice(b",,,; \t"), rng.below(2), rng.below(2), hx(text))
@@ -664,13 +1056,20 @@ def run(chk, replay=None):
     # ---- run ---------------------------------------------------------------
     cpp, deaths = S.cpp([c[1] for c in cases])
     # XRFF: the model starts from the document tinyxml2 produced
-    xi = [i for i, c in enumerate(cases) if c[0] == "xrff" and c[2] is None]
+    xi = [i for i, c in enumerate(cases) if (c[0] in ("xrff", "file") or c[1].startswith("var2 xrff")) and c[2] is None]
     if xi:
-        docs, _ = S.cpp(["xdoc " + cases[i][1].split()[2] for i in xi])
+        docs, _ = S.cpp(["xdoc " + cases[i][1].split()[-1] for i in xi])
         for i, dline in zip(xi, docs):
             c = cases[i]
             toks = dline.split()
-            ml = "xrff %s %s" % (c[1].split()[1], " ".join(toks[1:])) if toks and toks[0] == "doc" else None
+            # the model's read_xrff has no dialect / output_index: only the hook travels
+            t = c[1].split()
+            if t[0] == "var2":       # var2 xrff <hook> <typing> <doc tokens>
+                ml = "var2 xrff %s %s %s" % (t[7], t[8], " ".join(toks[1:])) if toks and toks[0] == "doc" else None
+            elif t[0] == "file":     # the model decides the format: it gets the bytes and the document
+                ml = "%s X %s" % (c[1], " ".join(toks[1:])) if toks and toks[0] == "doc" else None
+            else:
+                ml = "%s %s %s" % (t[0], t[-2], " ".join(toks[1:])) if toks and toks[0] == "doc" else None
             cases[i] = (c[0], c[1], ml, c[3], c[4])
     mi = [i for i, c in enumerate(cases) if c[2] is not None]
     model = {}
@@ -686,6 +1085,11 @@ def run(chk, replay=None):
         chk.count("kind:" + kind)
         chk.count("cpp:" + (a.split()[0] if a.split() else "empty"))
         tags = {"kind": kind}
+        if kind == "file" and "ext" in info:
+            chk.count("file:extension=%s,content=%s" % (info["ext"].decode() or "none", info["content"]))
+        if kind in ("csv", "xrff") and "T" in info:
+            sn = cpp[info["sniff_at"]] if "sniff_at" in info and info["sniff_at"] < len(cpp) else None
+            count_params(chk, kind, info["T"], exp, sn)
         rep = {"kind": kind, "line": ln, "cpp": a[:2000]}
         if mln is not None and mln != ln:
             rep["model_line"] = mln
@@ -697,34 +1101,26 @@ def run(chk, replay=None):
                           rep, tags=tags)
             continue
         # 1. the table oracle (independent of Lean)
-        if isinstance(exp, dict):
-            chk.count("oracle:table")
-            got = parse_dump(a)
-            d = None if got is None else first_diff(exp, got)
-            if (got is None or d) and kind == "csv" and "T" in info and nshrunk < 2:
+        if isinstance(exp, dict) or exp == "exc":
+            chk.count("oracle:either" if isinstance(exp, dict) and "either" in exp else
+                      "oracle:table" if isinstance(exp, dict) else "oracle:exc")
+            d = oracle_diff(exp, a)
+            if d and kind in ("csv", "xrff") and "T" in info and nshrunk < 3:
                 nshrunk += 1
-                sh = shrink_table(S, info["T"])
+                sh = shrink_table(S, info["T"], kind)
                 if sh is not None:                      # report the reduced table instead
-                    T2, ln2, a2 = sh
-                    exp, a = expected_csv(T2), a2
-                    got = parse_dump(a)
-                    d = None if got is None or not isinstance(exp, dict) else first_diff(exp, got)
+                    T2, ln2, a2, exp = sh
+                    a = a2
+                    d = oracle_diff(exp, a)
                     rep = {"kind": kind, "line": ln2, "cpp": a[:2000], "shrunk_from": ln[:400],
-                           "file": unhx(ln2.split()[6]).decode("latin1")}
+                           "file": unhx(ln2.split()[-1]).decode("latin1"),
+                           "params": "delimiter %s, header %s, trim_ws %d, quoting %s, output_index %s, hook %s"
+                                     % (T2.get("dmode", "explicit"), T2.get("hmode", "explicit"), T2["trim"],
+                                        "keep" if T2.get("keep") else "remove", T2["out"], T2["filter"])}
                     chk.count("shrunk")
             rep["expected"] = exp
-            if got is None:
-                chk.violation("well-formed table rejected: %s (expected %s)"
-                              % (a, "%d examples" % len(exp["examples"]) if isinstance(exp, dict) else exp),
-                              rep, tags=tags)
-            elif d:
-                rep["expected"] = exp
-                chk.violation("import differs from the table (table vs vita): " + d, rep, tags=tags)
-        elif exp == "exc":
-            chk.count("oracle:exc")
-            rep["expected"] = exp
-            if not a.startswith("exc"):
-                chk.violation("expected an exception (no data rows / a single class), got: " + a[:200], rep, tags=tags)
+            if d:
+                chk.violation(d, rep, tags=tags)
         elif isinstance(exp, str):
             chk.count("oracle:sniff")
             if a != exp:
@@ -733,7 +1129,7 @@ def run(chk, replay=None):
                               "expected %r got %r" % (exp, a), rep, tags=tags)
         else:
             chk.count("oracle:none")
-        if kind == "var" and a.startswith("ok"):
+        if kind == "var" and a.startswith("ok V"):
             # each variable j (0-based) must ask for input j, and a real interpreter must return that cell
             bad = None
             for j, (name, cat, rows) in enumerate(parse_vars(a, 3)):
@@ -747,16 +1143,40 @@ def run(chk, replay=None):
                     chk.count("var:evaluations")
             if bad:
                 chk.violation("variable binding broken: " + bad, rep, tags=tags)
+        if kind == "var" and ln.startswith("var2"):
+            t = ln.split()
+            strong = t[8] == "1"
+            chk.count("var:format=%s,typing=%s,via=%s" % (t[1], "strong" if strong else "weak", t[9]))
+            chk.count("var:hook=" + hook_ops(t[7]))
+            if a.startswith("ok S"):
+                groups, _, P, cols = parse_syms(a, 3)
+                chk.count("var:evaluations", sum(len(g[2]) for g in groups))
+                chk.count("var:state_constants", sum(len(g[3]) for g in groups))
+                chk.count("var:categories=%s" % (P[0] if int(P[0]) < 4 else "4+"))
+                chk.count("var:columns_without_domain", sum(1 for c in cols[1:] if c[1] == 0))
+                for c in cols[1:]:
+                    chk.count("var:column_domain=%d" % c[1])
+                bad = check_symbols(a, strong)
+                if bad:
+                    chk.violation("setup_terminals / variable binding broken: " + bad, rep, tags=tags)
         # 2. model vs code
         if i in model:
             m = model[i]
             same = False
-            if kind in ("csv", "xrff"):
+            if kind in ("csv", "xrff", "file"):
                 pm, pc = parse_dump(m) if m.startswith("ok") else None, parse_dump(a) if a.startswith("ok") else None
                 if pm is not None and pc is not None:
                     same = first_diff(pm, pc) is None
                 else:
                     same = pm is None and pc is None and outcome_class(m) == outcome_class(a)
+            elif kind == "var" and ln.startswith("var2"):
+                if m.startswith("ok") and a.startswith("ok"):
+                    gm, lm, Pm, cm = parse_syms(m, 2)
+                    gc, lc, Pc, cc = parse_syms(a, 3)
+                    strip = lambda gs: [(n, c, [(r[0], r[1]) for r in rows], ks) for n, c, rows, ks in gs]
+                    same = strip(gm) == strip(gc) and lm == lc and Pm == Pc and cm == cc
+                else:
+                    same = outcome_class(m) == outcome_class(a) and not m.startswith("ok")
             elif kind == "var":
                 if m.startswith("ok") and a.startswith("ok"):
                     vm = [(n, [(r[0], r[1]) for r in rows]) for n, _, rows in parse_vars(m, 2)]
@@ -786,12 +1206,16 @@ def run(chk, replay=None):
     return chk.finish(
         level="proof",
         checker_cmd="lake build Vita.C09.Props c09_driver && lake env lean <#print axioms for every theorem>",
-        rule="generated rectangular tables (1-60 rows, 1-12 columns, numeric/text/mixed columns, 6 delimiters, "
-             "header on/off, every output index and none, random quoting, CR LF, blank lines, filter) as CSV and "
-             "XRFF, sniffer inputs, raw parser lines, variables of setup_terminals evaluated on the examples; "
-             "each is compared with the table (oracle) and with the Lean model; distinct_nontrivial = distinct "
-             "request lines whose import succeeded with >= 1 example and >= 2 columns (csv/xrff/var), whose "
-             "text has a quote (parse), whose file has >= 2 lines (sniff)",
+        rule="generated rectangular tables (1-60 rows, 1-12 columns, numeric/text/mixed columns; families general / "
+             "delimiter-clear / numeric column names / capitalised first row / unambiguous) read with every combination of "
+             "{explicit, sniffed} delimiter x {header(), no_header(), guessed}, trim_ws, quoting keep/remove, every output "
+             "index and none, row hooks (content, position-weighted, one cell, upper-case a cell, swap two cells), random "
+             "quoting, CR LF, blank lines - as CSV, as XRFF (handled and unhandled attribute types, class attribute "
+             "first/middle/last/default, junk dialect/output_index) and through dataframe::read by extension; sniffer "
+             "inputs, raw parser lines, setup_terminals on CSV/XRFF data (variables, state constants, categories, both "
+             "typings); each is compared with the table (oracle) and with the Lean model; distinct_nontrivial = distinct "
+             "request lines whose import succeeded with >= 1 example and >= 2 columns (csv/xrff/file/var), whose text has a "
+             "quote (parse), whose file has >= 2 lines (sniff)",
         trusted=["Lean 4.33 kernel", "hand-written model Vita/C09/{Csv,Model}.lean (tied by the differential run)",
                  "harness/c09_read.cc + checks/c09.py (generator, table oracle, canonical dumps)",
                  "strtod/std::stod/std::stoi (uninterpreted in the model, values supplied by the harness)",
